@@ -1,5 +1,6 @@
 import RactorModel.Lemmas.FactoryRouters
 import RactorModel.Lemmas.FactoryAffinity
+import RactorModel.Lemmas.FactoryQueuer
 
 /-!
 # C14 — Factory routing keeps its promises about where a job runs
@@ -109,6 +110,30 @@ theorem kp_routes_to_holder (w : W) (j : Job) (hint : Option Nat) (p0 : WP) (hr 
   unfold W.chooseTargetWorker
   simp only [hr, hf]
 
+/-! ## Queuer routing never idles a worker while a job waits -/
+
+/-- (queuer) With queuer routing (no rate limiter in front of it), for every configuration and
+EVERY sequence of operations — dispatches, completions, worker failures and kills, TTL expiry,
+discard limits, pool growth and shrinkage, settings updates, drain, a factory held busy — after
+every step: if a job waits in the factory queue then no worker of the pool is available.
+The proof carries the soundness of the router's lazy available-workers deque (every available
+worker is flagged, every flagged worker is in the deque) through every function
+(`Lemmas/FactoryQueuer.lean`). -/
+theorem queuer_never_idles (c : CaseCfg) (hr : c.cfg.router = .q) (hrl : c.rl = none) (steps : List Step) :
+    ((init c).runSteps steps).queue ≠ [] → ∀ p ∈ ((init c).runSteps steps).pool, p.isAvailable = false := by
+  intro hq p hp
+  exact (qd_runSteps (init c) steps (qd_init c hr hrl)).q hq p hp (by simp)
+
+/-- … and whenever a worker is available the router knows it: it is flagged and in the deque,
+so the next dispatch finds it. -/
+theorem queuer_deque_sound (c : CaseCfg) (hr : c.cfg.router = .q) (hrl : c.rl = none) (steps : List Step) :
+    ∀ p ∈ ((init c).runSteps steps).pool, p.isAvailable = true →
+      p.wid ∈ ((init c).runSteps steps).inQ ∧ p.wid ∈ ((init c).runSteps steps).avail := by
+  intro p hp ha
+  have d := (qd_runSteps (init c) steps (qd_init c hr hrl)).d
+  have h1 := d.d1 p hp (by simp) ha
+  exact ⟨h1, d.sub _ h1⟩
+
 /-! ### Findings on their concrete witnesses (the model replays them exactly: DIFF = 0 on every run)
 
 F4 — the full affinity statement ("never in progress on two workers") is FALSE of the code. -/
@@ -155,6 +180,14 @@ example : startOrder ((init f3Case).runSteps f3Steps) = [1, 2, 3] := by decide +
 example : C14.routingOk f3Info ((init f3Case).runSteps f3Steps).env.log = true := by decide +kernel
 
 /-! ### Non-vacuity -/
+def qCase : CaseCfg :=
+  { cfg := { router := .q, prioQueue := false, hasHandler := true, table := [], hasCC := false }, n := 1, disc := none, rl := none }
+def qSteps : List Step :=
+  [⟨.nop, 0, 2000000, 3000000⟩, ⟨.dispatch 1 7 0 none false, 3000000, 4000000, 5000000⟩,
+   ⟨.dispatch 2 8 0 none false, 5000000, 6000000, 7000000⟩]
+/-- a job waits and the only worker is busy -/
+example : ((init qCase).runSteps qSteps).queue.length = 1 ∧
+    ((init qCase).runSteps qSteps).pool.map (·.isAvailable) = [false] := by decide +kernel
 example : rrSeq 3 3 7 = [0, 1, 2] := by decide
 example : rrSeq 4 4 1 = [2, 3, 0, 1] := by decide
 example : chooseCustom (fun _ _ => 2 ^ 64 - 1) 5 3 = 0 := by decide
@@ -169,3 +202,5 @@ end C14
 #print axioms C14.affinity_partial
 #print axioms C14.affinity_unique_slot
 #print axioms C14.kp_routes_to_holder
+#print axioms C14.queuer_never_idles
+#print axioms C14.queuer_deque_sound
